@@ -353,8 +353,9 @@ pub fn run(cx: &mut Ctx) {
         let base = Cfg::from_index(ci);
         for k in 0..per_cfg {
             let mut cfg = base;
-            cfg.padding = *r.pick(&[255u8, 255, 0, 2, 7]);
-            cfg.precision = *r.pick(&[255u8, 255, 0, 3, 6, 9, 1]);
+            // the whole u8 domain of both options is legal (values beyond the maximum are clamped)
+            cfg.padding = if k % 8 == 7 { r.below(255) as u8 } else { *r.pick(&[255u8, 255, 0, 2, 7, 19, 20]) };
+            cfg.precision = if k % 8 == 3 { r.below(255) as u8 } else { *r.pick(&[255u8, 255, 0, 3, 6, 9, 1, 10, 19, 20]) };
             cfg.zero_unit = if r.chance(1, 3) { r.below(10) as u8 } else { 255 };
             let m = gen_span(&mut r);
             check_span_friendly(cx, &cfg, &m);
